@@ -184,8 +184,7 @@ def h_connect(sym, kind):
         sym.check(raised is None, key + "would-block-raised", repr(raised))
         sym.check(not r and not c.accepted and not c.connected, key + "would-block-connected")
         sym.check(c.cs is cs0 and not c.cutoff and fake.created == 1, key + "would-block-changed-state")
-    else:
-        sym.check(not c.accepted or raised is not None, key + "error-result-connected")
+    # any other result: the statement is silent (connect_ex reports errors by value), nothing is demanded
     return True
 
 
